@@ -65,6 +65,27 @@ def judge(args):
     tree = os.path.join(work, "xstate_statemachine")
     res = {"id": variant["id"], "status": "ok", "detail": [], "note": variant.get("note", "")}
     try:
+        if variant.get("patch"):
+            # a behaviour-preserving refactoring kept as a diff (selftest/refactors): all twenty checks stay silent
+            os.makedirs(os.path.join(work, "src"))
+            shutil.copytree(SRC, os.path.join(work, "src", "xstate_statemachine"), ignore=shutil.ignore_patterns("__pycache__"))
+            pr = subprocess.run(["patch", "-p1", "-s", "-i", variant["patch"]], cwd=work, capture_output=True, text=True)
+            if pr.returncode != 0:
+                res["status"] = "not-applicable"
+                res["detail"].append(f"patch does not apply: {pr.stdout[-150:]}")
+                return res
+            pr = subprocess.run([sys.executable, os.path.join(VERIF, "tools", "run_all.py"), os.path.join(work, "src", "xstate_statemachine")],
+                                capture_output=True, text=True, cwd=VERIF)
+            try:
+                out = json.loads(pr.stdout.strip().splitlines()[-1])
+            except Exception:
+                out = {"_error": {"rc": 2, "rules": ["ANALYSIS-ERROR"], "reports": [pr.stderr[-200:]]}}
+            for prop, v in sorted(out.items()):
+                res["status"] = "FAIL"
+                res["detail"].append(f"{prop}: expected silence, got exit {v.get('rc')} rules {v.get('rules')}: {(v.get('reports') or [''])[0][:200]}")
+            if not out:
+                res["detail"].append("all twenty checks silent")
+            return res
         if variant.get("raw"):
             # mutation-style variant: a single-node edit of the original source text (see selftest/mutation_variants.py)
             shutil.copytree(SRC, tree, ignore=shutil.ignore_patterns("__pycache__"))
@@ -128,6 +149,12 @@ def main():
         VARIANTS = VARIANTS + MUTATION_VARIANTS
     except ImportError:
         pass
+    rdir = os.path.join(HERE, "refactors")
+    if os.path.isdir(rdir):
+        for fn in sorted(os.listdir(rdir)):
+            if fn.endswith(".diff"):
+                VARIANTS = VARIANTS + [{"id": f"silent-refactor-{fn[:-5]}", "fire": {}, "silent": ["ALL"], "edits": [], "patch": os.path.join(rdir, fn),
+                                        "note": "behaviour-preserving refactoring (suite passes); see selftest/refactors/NOTES.md"}]
     vs = [v for v in VARIANTS if not a.only or a.only in v["id"] or a.only in v["fire"] or a.only in v["silent"]]
     base_root = tempfile.mkdtemp(prefix="xsm_selftest_base_")
     base = os.path.join(base_root, "xstate_statemachine")
